@@ -467,4 +467,84 @@ theorem obsView_cases (cfg : Cfg) (k : Kind) (now : Nat) (m : Metric) (e : Optio
           · exact Or.inl ⟨obsView_idle _ _ _ _ _ _ hc ht, Or.inr (Or.inr ⟨T, lu, hc, rfl, ht⟩)⟩
         · exact Or.inr (Or.inl ⟨obsView_changed _ _ _ _ _ _ _ hc hg, T, hc, Or.inr ⟨lg, lu, rfl, hg⟩⟩)
 
+/-! ### the extended histories (`XOp`), seen from one metric -/
+
+/-- what an extended operation does to one metric's view: an outside delete / clear removes the metric and leaves
+    the `Recency` entry where it is; a second observer's `should_store_*` acts on the view as `stepView` with
+    the generation it was given -/
+def xopView (cfg : Cfg) (i : Id) (now : Nat) (v : View) : XOp → View
+  | .base op => opView cfg i now v op
+  | .del k key => if (k, key) = i then (none, v.2) else v
+  | .clear => (none, v.2)
+  | .stale k key g => if (k, key) = i then stepView cfg i.1 now v g else v
+
+theorem xstep_cfg (s : St) (x : XOp) : (xstep s x).cfg = s.cfg := by
+  cases x <;> simp [xstep, step_cfg, shouldStore_cfg]
+
+theorem xstep_now (s : St) (x : XOp) :
+    (xstep s x).now = (match x with | .base (.adv n) => s.now + n | _ => s.now) := by
+  cases x with
+  | base op => cases op <;> simp [xstep, step_now]
+  | del k key => rfl
+  | clear => rfl
+  | stale k key g => simp [xstep, shouldStore_now]
+
+theorem stale_eq_visit (s : St) (k : Kind) (key : Key) (g : Nat) :
+    (shouldStore s k key g).1 = visit s ((k, key), ⟨g, Val.zero k⟩) := rfl
+
+theorem wf_xstep (s : St) (x : XOp) (h : WF s) : WF (xstep s x) := by
+  refine ⟨by rw [xstep_cfg]; exact h.1, ?_⟩
+  cases x with
+  | base op => exact (wf_step s op h).2
+  | del k key => exact nodup_keys_erase _ _ h.2
+  | clear => simp [xstep, KeysNodup, keys]
+  | stale k key g =>
+    show KeysNodup (shouldStore s k key g).1
+    rw [stale_eq_visit]; exact nodup_visit s _ h.2
+
+theorem wf_xrun (s : St) (xs : List XOp) (h : WF s) : WF (xrun s xs) := by
+  induction xs generalizing s with
+  | nil => exact h
+  | cons x xs ih => exact ih _ (wf_xstep s x h)
+
+theorem xrun_cfg (s : St) (xs : List XOp) : (xrun s xs).cfg = s.cfg := by
+  induction xs generalizing s with
+  | nil => rfl
+  | cons x xs ih => simp only [xrun, List.foldl_cons] at ih ⊢; rw [ih, xstep_cfg]
+
+theorem xrun_append (s : St) (a b : List XOp) : xrun s (a ++ b) = xrun (xrun s a) b := by
+  simp [xrun, List.foldl_append]
+
+/-- **every extended operation acts on a metric through that metric's view only** -/
+theorem view_xstep (s : St) (h : WF s) (x : XOp) (i : Id) :
+    view (xstep s x) i = xopView s.cfg i s.now (view s i) x := by
+  cases x with
+  | base op => exact view_step s h op i
+  | del k key =>
+    simp only [view, xstep, xopView, deleteMetric, lookup_erase]
+    by_cases e : (k, key) = i
+    · subst e; simp
+    · have : ¬ i = (k, key) := fun x => e x.symm
+      simp [e, this]
+  | clear => simp [view, xstep, xopView]
+  | stale k key g =>
+    show view (shouldStore s k key g).1 i = _
+    rw [stale_eq_visit]
+    by_cases e : (k, key) = i
+    · subst e
+      simp only [xopView, if_true]
+      exact view_visit_self s (k, key) ⟨g, Val.zero k⟩
+    · simp only [xopView, e, if_false]
+      exact view_visit_other s h.1 _ i (fun x => e x.symm)
+
+theorem strip_append (a b : List XOp) : strip (a ++ b) = strip a ++ strip b := by
+  induction a with
+  | nil => rfl
+  | cons x xs ih => cases x <;> simp [strip, ih]
+
+theorem mem_strip (op : Op) (xs : List XOp) : op ∈ strip xs ↔ XOp.base op ∈ xs := by
+  induction xs with
+  | nil => simp [strip]
+  | cons x xs ih => cases x <;> simp [strip, ih]
+
 end MetricsVerif.Recency
